@@ -18,4 +18,26 @@ CHECKS = {
                      'the run is exhaustive.',
                 note='Trusts the vendored corpus (sha256 pinned) and the 120-line re-implementation of the spec driver\'s normaliser, '
                      'which is applied to both sides and is only consulted when the bytes differ.'),
+    'C01': dict(category='exploration', design_ref='DESIGN.md section 5, C01',
+                technique='runtime monitoring: exception classifier + CPU-time watchdog round every parse/render of hostile, enumerated and stress inputs',
+                text='Every execution (input x renderer configuration x supply form) of the real code is wrapped by a monitor that admits only '
+                     'the property\'s documented refusals and enforces the 10 s budget in CPU time (confirmed in a fresh process). Reach comes '
+                     'from ~150k (quick) / ~3M (thorough) executions over the spec corpus, mutations, random soups, generated documents, '
+                     '~100 pathological shapes up to 4 KB and ALL strings over two 24-symbol alphabets up to length 3/4.',
+                note='Held on the executions observed; nothing is claimed for inputs the workloads do not reach. Recursion errors are admitted '
+                     'only when a conservative syntactic depth bound exceeds 100.'),
+    'C06': dict(category='exploration', design_ref='DESIGN.md section 5, C06',
+                technique='reference-model monitor: independent transcription of the CommonMark delimiter algorithm compared on exhaustively enumerated strings',
+                text='Every string over {a,space,*,_,.} up to length 8 (quick) / 10 (thorough: 12.2 M strings) and over {a,*},{a,_} up to 14 is '
+                     'rendered by the real parser and compared with an independent implementation of the spec\'s process-emphasis procedure; '
+                     'random longer strings over a wider Unicode alphabet extend the reach. Within the enumerated bound the check is exhaustive.',
+                note='Trusts the 150-line reference model, which is itself re-validated against the 102 in-alphabet examples of the spec on every run.'),
+    'C08': dict(category='exploration', design_ref='DESIGN.md section 5, C08',
+                technique='output invariant monitor: strict grammar of the renderer\'s output language + tag skeleton derived from the token tree; exhaustive sweep of the escaping helpers',
+                text='Each rendering is recognised by a strict grammar (closed tag/attribute vocabulary, quoted attribute values without quotes or '
+                     'angle brackets, escaped text, proper nesting) and its tag sequence must equal the skeleton computed from the token tree, so '
+                     'text can add no tag. Raw HTML token content is bracketed by sentinels in the tree and cut out. The two escaping helpers are '
+                     'swept over every Unicode scalar value.',
+                note='Held on the renderings observed (payload-seeded documents, spec corpus x 8 option sets, generated and random inputs). The '
+                     'grammar and the skeleton function are the trusted base.'),
 }
